@@ -20,7 +20,8 @@ def conds(tier):
                     encodes=core.ENC_SCHED))
     out.append(Cond("reentry", core.mk_reentry(P), core.REENTRY_PARAMS, pin=3, budget=150,
                     family="F-REENTRY", encodes=core.ENC_SCHED))
-    out.append(core.fault_cond("caught", P, [4, 6], g0modes=3, g1modes=3, pin=4, budget=200))
+    out.append(core.fault_cond("caught", P, [4] if q else [4, 6], g0modes=3, g1modes=3, pin=4,
+                               budget=200 if q else 900, slim=q))
     if not q:
         out.append(Cond("tree4", core.mk_tree(P, 4, 3, 3), core.tree_params(4, 3, 3), pin=4, budget=900,
                         family="F-TREE(4,3,3)", encodes=core.ENC_SCHED))
